@@ -4,6 +4,7 @@ import (
 	"encoding/json"
 	"flag"
 	"fmt"
+	"google.golang.org/protobuf/proto"
 	"sort"
 
 	openfgav1 "github.com/openfga/api/proto/openfga/v1"
@@ -172,8 +173,19 @@ func pgReplay(args []string) error {
 			}
 			first := g.GetDOT()
 			rdots := map[string]bool{}
+			// the same model assembled from shared building blocks (structurally equal rewrite subtrees are one message value) and as
+			// a deep copy: proto.Equal models draw the same graph
+			sharedAbs := *inp.M
+			sharedAbs.SharedNodes = true
+			sharedModel := protoModel(&sharedAbs)
 			for i := 0; i < *reps; i++ {
 				var m2 *openfgav1.AuthorizationModel = model
+				switch i % 3 {
+				case 1:
+					m2 = sharedModel
+				case 2:
+					m2 = proto.Clone(model).(*openfgav1.AuthorizationModel)
+				}
 				gi, err := graph.NewAuthorizationModelGraph(m2)
 				if err != nil || gi.GetDOT() != first {
 					obs.DOTStable = false
